@@ -1104,3 +1104,71 @@ pub(crate) fn cc_debug_display_forwarding() {
     kani::assert(r2.is_err() && unsafe { FMT_CALLS } == (3, 3), "Cc::fmt::post::display_forwards_to_T_once_and_returns_its_result");
     core::mem::forget(a);
 }
+
+// ------------------------------------------------------------------------------------------------
+// payload layout grid (thorough tier): sizes {1, 3, 24, 200} x alignments {1, 2, 8, 64} (4 KiB payloads only in cc_layout_grid_alignment: layout arithmetic without allocation)
+// ------------------------------------------------------------------------------------------------
+macro_rules! grid_type {
+    ($name:ident, $align:literal, $size:literal) => {
+        #[repr(align($align))]
+        pub(crate) struct $name(pub [u8; $size]);
+        unsafe impl Trace for $name {
+            fn trace(&self, _: &mut Context<'_>) {}
+        }
+        impl Finalize for $name {}
+    };
+}
+grid_type!(G1x1, 1, 1);
+grid_type!(G1x3, 1, 3);
+grid_type!(G1x24, 1, 24);
+grid_type!(G1x200, 1, 200);
+grid_type!(G2x1, 2, 1);
+grid_type!(G2x3, 2, 3);
+grid_type!(G2x24, 2, 24);
+grid_type!(G8x1, 8, 1);
+grid_type!(G8x3, 8, 3);
+grid_type!(G8x24, 8, 24);
+grid_type!(G8x200, 8, 200);
+grid_type!(G64x1, 64, 1);
+grid_type!(G64x24, 64, 24);
+grid_type!(G64x200, 64, 200);
+
+/// one payload type through its whole life by both release paths: creation layout, value address,
+/// last-owner drop and try_unwrap release exactly the creation layout (CBMC's dealloc-size checks),
+/// allocated_bytes returns to its starting value
+fn grid_case<T: Trace + 'static>(mk: fn() -> T, first_byte: fn(&T) -> u8) {
+    let b0 = state(|s| sp::snap(s)).bytes;
+    let a = Cc::new(mk());
+    kani::assert(a.inner().layout() == Layout::new::<CcBox<T>>(), "CcBox::layout::post::equals_creation_layout");
+    kani::assert(layout_ok::<T>(), "CcBox::layout::post::elem_offset_and_box_alignment_honour_T");
+    kani::assert(&*a as *const T as usize == raw_of(&a).as_ptr() as usize + elem_offset::<T>() && first_byte(&*a) == 0x5a, "Cc::deref::post::address_is_box_plus_elem_offset");
+    kani::assert(state(|s| sp::snap(s)).bytes == b0 + core::mem::size_of::<CcBox<T>>(), "Cc::new::post::allocated_bytes_plus_box_size");
+    drop(a);
+    kani::assert(state(|s| sp::snap(s)).bytes == b0, "Cc::drop::last_owner::post::allocated_bytes_minus_box_size");
+    let b = Cc::new(mk());
+    match b.try_unwrap() {
+        Ok(v) => {
+            kani::assert(first_byte(&v) == 0x5a, "Cc::try_unwrap::post::value_moved_out_unchanged");
+            core::mem::forget(v);
+        }
+        Err(c) => {
+            kani::assert(false, "Cc::try_unwrap::post::ok_when_unique_and_idle");
+            core::mem::forget(c);
+        }
+    }
+    kani::assert(state(|s| sp::snap(s)).bytes == b0, "Cc::try_unwrap::post::allocated_bytes_minus_box_size");
+}
+macro_rules! grid_harness {
+    ($fname:ident, $($t:ident : $size:literal),*) => {
+        //@ C03 C20 C13 | complete | deciding | thorough | feat=full,std | fn=CcBox::layout,Cc::new,Cc::drop,Cc::try_unwrap,cc_alloc,cc_dealloc | timeout=1200
+        #[kani::proof]
+        #[kani::unwind(9)]
+        pub(crate) fn $fname() {
+            $( grid_case::<$t>(|| $t([0x5a; $size]), |v| v.0[0]); )*
+        }
+    };
+}
+grid_harness!(cc_layout_grid_align_1_2, G1x1: 1, G1x3: 3, G1x24: 24, G1x200: 200, G2x1: 1, G2x3: 3, G2x24: 24);
+grid_harness!(cc_layout_grid_align_8_64, G8x1: 1, G8x3: 3, G8x24: 24, G8x200: 200, G64x1: 1, G64x24: 24, G64x200: 200);
+// alignment 4096: `Page` in cc_layout_grid_alignment (new / layout / deref / last-owner drop); a full life through
+// try_unwrap exceeds the solver budget (8 KiB boxes lose CBMC's field sensitivity)
